@@ -101,9 +101,9 @@ def gen(rng, tier):
     # read (every memo on the collection is warm), then every entry point is asked again; the
     # reference from here on is x.compute() of the modified x (the statement's own anchor)
     X = ctx.env.vars[x]
-    if (rng.random() < 0.35 and G.known(X) and X.ndim >= 1 and 0 not in X.shape and X.dtype.kind in "fiu"
-            and all(int(d) <= 64 for d in X.shape)):
-        from . import c11
+    from . import c11
+
+    if rng.random() < 0.35 and c11.assignable(X):
 
         for _ in range(rng.randint(1, 3)):
             w = rng.random()
@@ -118,30 +118,9 @@ def gen(rng, tier):
             else:
                 k += 1
                 hist.append(dict({"ev": "persist", "var": x, "entry": "method", "out": f"p{k}"}, **H.rand_sched(rng)))
-        shape = tuple(int(d) for d in X.shape)
-        if rng.random() < 0.8:
-            key = None
-            for _ in range(8):
-                key = c11.gen_key(rng, shape, x, ["basic", "basic", "list", "npmask", "daskmask"])
-                try:
-                    # validity probe on a copy: the in-place step must be one dask_array accepts
-                    import warnings
-
-                    with warnings.catch_warnings():
-                        warnings.simplefilter("ignore")
-                        y_ = X.copy()
-                        m_ = H.Machine({"recipe": recipe}, {}, [], ID)
-                        m_.pool = {x: y_}
-                        y_[m_.resolve_key(key)] = 1
-                        _ = y_.chunks
-                    break
-                except Exception:  # noqa: BLE001
-                    key = None
-            if key is not None:
-                hist.append({"ev": "setitem", "var": x, "key": key, "value": rng.choice([0, -1, 7, 3])})
-        else:
-            uf = rng.choice(["add", "multiply", "negative", "subtract"])
-            hist.append({"ev": "ufunc_out", "var": x, "ufunc": uf, "args": [x] if uf == "negative" else [x, rng.choice([1, 2, 3])]})
+        ev_ = c11.gen_inplace_event(rng, recipe, x, X, ID)
+        if ev_ is not None:
+            hist.append(ev_)
         tail = ["compute:delayed", "compute:dask1", "compute_many", "persist:method", "persist:dask", "doptimize", "optimize",
                 "compute:delayed", "inspect-keys"]
         after = []
